@@ -340,6 +340,32 @@ def write_dump(c, rng, dist):
             return body, aux
         return f
 
+    def region_bytes(j, size):
+        # the fill of harness/src/bin/c14.rs: 32-bit CPUs every byte 0x70+j; 64-bit CPUs the word 0x70000100+16j, the tail zero
+        if c.arch not in ARCH_WORD8:
+            return bytes([0x70 + (j & 0xf)]) * size
+        return u64(ANCHOR_WORD + 16 * j) * (size // 8) + bytes(size % 8)
+
+    def memory_list(mems):
+        def f(off):
+            body, aux = u32(len(mems)), b""
+            at = off + 4 + 16 * len(mems)
+            for j, (base, size) in enumerate(mems):
+                body += u64(base) + u32(size) + u32(at + len(aux))
+                aux += region_bytes(j, size)
+            return body, aux
+        return f
+
+    def memory64_list(mems):
+        def f(off):
+            body = u64(len(mems)) + u64(off + 16 + 16 * len(mems))
+            aux = b""
+            for j, (base, size) in enumerate(mems):
+                body += u64(base) + u64(size)
+                aux += region_bytes(j, size)
+            return body, aux
+        return f
+
     def misc_info(m):
         size, flags1, pid, ct = m
         return lambda off: ((u32(size) + u32(flags1) + u32(pid) + u32(ct) + u32(0) + u32(0) + bytes(max(0, size - 24)))[:size], b"")
@@ -373,6 +399,11 @@ def write_dump(c, rng, dist):
         streams.append((ST_BREAKPAD, breakpad_info(c.bp_form, c.bp_raw)))
     if c.status:
         streams.append((ST_LXSTATUS, lambda off, b=c.status[2]: (b, b"")))
+    if c.mems:
+        # the regions get_memory() serves: a Memory64List, or a MemoryList - every thread has a null stack descriptor
+        streams.append((9, memory64_list(c.mems)) if c.mem64 else (5, memory_list(c.mems)))
+        if c.mem64 and rng.chance(1, 2):
+            streams.append((5, memory_list([(b ^ 0x100000, sz) for b, sz in c.mems[:2]])))      # a MemoryList next to it is not consulted
     # any order in the file
     for i in range(len(streams) - 1, 0, -1):
         j = rng.below(i + 1)
@@ -470,7 +501,8 @@ class C14(PropBase):
     assumptions = [
         "the text of WinError / WinErrorWithFacility / NTSTATUS / in-page reasons is rendered by the model over names handed over per case (read from the source's two ~2900-entry tables by the plugin, "
         "as the oracle does independently); H cases (bytes only) do not compare the text of these four families",
-        "from the bytes of a dump the model does not read the memory regions (d_mems = [], no own stack): the stack-memory choice is stated and compared over the case description only; "
+        "from the bytes of a dump the model reads the memory regions get_memory() serves but not a thread's OWN stack descriptor: the byte-level stack-memory choice is stated and compared for threads with a null "
+        "stack descriptor (Memory64 / full-dump layout); with own descriptors over the case description only; "
         "CPU contexts from bytes: all nine structures (ten architectures) MinidumpContext::read has an arm for; positions of ip / sp found by field name in the regenerated layouts (the byte-level theorems hold for every context reader)",
         "u8::is_ascii_whitespace and str::parse::<u32> (standard library) are modelled by hand (is_ws, parse_u32); non-UTF-8 bytes never form a digit",
         "the stack memory chosen for a walk is observed through the first scanned frame on x86, amd64, arm (not iOS), arm64 and old arm64 (64-bit CPUs: 8-byte aligned sp only; 32-bit: any alignment); on other CPUs the model's choice is not compared",
@@ -499,7 +531,9 @@ class C14(PropBase):
                 "thread-list entry with the thread names stream's last name (c14_bytes_threads), the requesting thread is the last entry named by the exception stream else by the Breakpad info and "
                 "not the dump-writer thread, starting from the exception context (c14_bytes_requesting_thread; c14_file_requesting_thread for ANY file the reader accepts, unreadable optional streams "
                 "counting as absent), per-frame unloaded offsets (c14_bytes_unloaded_offsets); which streams are required / optional / defaulted is regenerated from MinidumpInfo::new "
-                "(c14_stream_policy_is_source). The text of all 33 reason variants is compared (c14_windows_reason_string).",
+                "(c14_stream_policy_is_source); crash address with no range hypothesis (c14_bytes_crash_address); stack memory of threads with a null stack descriptor over the regions get_memory() serves "
+                "(c14_bytes_stack_memory); LE / BE encodings give the same record up to the contexts (c14_bytes_byte_order_independent); ip / sp of the nine context structures by field name "
+                "(c14_context_registers_by_name). The text of all 33 reason variants is compared (c14_windows_reason_string).",
         "note": "Trusted: Coq kernel; the translator (parser + symbolic execution of a Rust subset) and the hand model it is proved equal to; C08 model; "
                 "standard-library behaviours is_ascii_whitespace / parse::<u32> modelled by hand; frames beyond frame 0 not modelled. No axioms.",
     }
@@ -795,10 +829,12 @@ class C14(PropBase):
         return self.format_case(self.make_case(rng, dist, short_streams=True))
 
     def gen_hex_case(self, rng, dist):
-        """`H <hex> <description>`: the dump as BYTES from the plugin's own writer (no memory regions: the model does not read them from
-        the bytes); the model side is C02's reader model composed with C14's, the implementation side Minidump::read + process_minidump"""
+        """`H <hex> <description>`: the dump as BYTES from the plugin's own writer (threads have null stack descriptors; the memory regions,
+        if any, live in a MemoryList or a Memory64List); the model side is C02's reader model composed with C14's, the implementation
+        side Minidump::read + process_minidump"""
         c = self.make_case(rng, dist, short_streams=True, archs=H_ARCHS)
-        c.mems, c.mem64 = [], 0
+        if rng.chance(1, 2):
+            c.mems, c.mem64 = [], 0
         c.threads = c.threads[:rng.choice([8, 8, 8, 33])]
         for t in c.threads:
             t["sidx"] = -1
@@ -832,8 +868,15 @@ class C14(PropBase):
     # ------------------------------------------------------------------ canonical forms
     @staticmethod
     def scan_observable(case, arch):
-        # 32-bit ARM on iOS unwinds by frame pointer only (fp = 0 ends the walk): no scanned frame to observe
-        return arch in ARCH_SCAN and not (arch == 5 and case.split(" ", 2)[1] == "33026")
+        # 32-bit ARM on iOS unwinds by frame pointer only (fp = 0 ends the walk): no scanned frame to observe;
+        # a scanned return address is only accepted inside a loaded module: the anchor module must be in the module list the
+        # processor sees (H cases may write the module list stream unreadable or leave it out)
+        if not (arch in ARCH_SCAN and not (arch == 5 and case.split(" ", 2)[1] == "33026")):
+            return False
+        t = case.split()
+        k = t.index("MOD")
+        n = int(t[k + 1])
+        return any((int(t[k + 2 + 2 * i]), int(t[k + 3 + 2 * i])) == ANCHOR for i in range(n))
 
     @staticmethod
     def f1_region(arch, nmems, f1):
